@@ -11,11 +11,25 @@ Proof.
   apply andb_true_iff in H. destruct H as [H1 H2]. apply N.eqb_eq in H1. subst. f_equal. auto.
 Qed.
 
+Lemma svc_eqb_eq : forall a b, svc_eqb a b = true -> a = b.
+Proof.
+  intros [t1 k1 p1 e1] [t2 k2 p2 e2]. unfold svc_eqb. cbn [s_type s_keys s_plain s_ep]. intros H.
+  repeat (apply andb_true_iff in H; destruct H as [H ?]).
+  apply keys_eqb_eq in H2. apply Bool.eqb_prop in H1. apply N.eqb_eq in H0. subst.
+  destruct t1, t2; cbn in H; try discriminate; reflexivity.
+Qed.
+
+Lemma svcs_eqb_eq : forall a b, svcs_eqb a b = true -> a = b.
+Proof.
+  induction a as [|x a IH]; destruct b as [|y b]; cbn [svcs_eqb]; intros H; try discriminate; auto.
+  apply andb_true_iff in H. destruct H as [H1 H2]. apply svc_eqb_eq in H1. subst. f_equal. auto.
+Qed.
+
 Lemma doc_eqb_eq : forall a b, doc_eqb a b = true -> a = b.
 Proof.
-  intros [i1 k1 e1 h1] [i2 k2 e2 h2]. unfold doc_eqb. cbn [d_id d_keys d_ep d_h]. intros H.
+  intros [i1 k1 e1 h1] [i2 k2 e2 h2]. unfold doc_eqb. cbn [d_id d_svcs d_ka d_h]. intros H.
   repeat (apply andb_true_iff in H; destruct H as [H ?]).
-  apply N.eqb_eq in H. apply keys_eqb_eq in H2. apply N.eqb_eq in H1. apply N.eqb_eq in H0. subst. reflexivity.
+  apply N.eqb_eq in H. apply svcs_eqb_eq in H2. apply keys_eqb_eq in H1. apply N.eqb_eq in H0. subst. reflexivity.
 Qed.
 
 Lemma ns_eqb_eq : forall a b, ns_eqb a b = true <-> a = b.
@@ -258,10 +272,12 @@ Proof.
       assert (B2 : owns (set_vdr (set_th (set_conn a c0 r0) Their t0 c0) s) n t c) by exact B1.
       assert (C2 : cget (a_conns (set_vdr (set_th (set_conn a c0 r0) Their t0 c0) s)) c = Some r) by exact C1.
       destruct (d_keys dc); [apply AB; auto|].
+      destruct (negb (my_type_ok p (first_type dc))); [apply AB; auto|].
       destruct (new_my v _ my) as [a3|] eqn:NM; [|apply AB; auto].
       apply new_my_proj in NM. destruct NM as (E1 & E2 & _).
       assert (B3 : owns a3 n t c). { destruct B2 as [X Y]. split; rewrite E2; auto. }
       assert (C3 : cget (a_conns a3) c = Some r). { rewrite E1. exact C2. }
+      destruct (negb (reply_key_ok p (first_type dc) my)); [apply AB; auto|].
       destruct (iget (a_invs a3) pt); [|apply AB; auto].
       cbn [fst]. split; [exact B3|]. rewrite cget_set_other by auto. exact C3.
     + (* response *)
@@ -372,9 +388,11 @@ Proof.
       destruct dco as [dc|]; [|apply AB; auto].
       destruct (vput v _ dc) as [s|] eqn:VP; [|apply AB; auto].
       destruct (d_keys dc); [apply AB; exact C1|].
+      destruct (negb (my_type_ok p (first_type dc))); [apply AB; exact C1|].
       destruct (new_my v _ my) as [a3|] eqn:NM; [|apply AB; exact C1].
       apply new_my_proj in NM. destruct NM as (E1 & _).
       assert (C3 : cget (a_conns a3) c = Some r). { rewrite E1. exact C1. }
+      destruct (negb (reply_key_ok p (first_type dc) my)); [apply AB; auto|].
       destruct (iget (a_invs a3) pt); [|apply AB; auto].
       cbn [fst]. rewrite cget_set_other by auto. exact C3.
     + unfold step.
@@ -489,7 +507,9 @@ Proof.
   rewrite N.eqb_refl in *. cbn [negb] in *. cbv zeta in *.
   destruct (vput Fixed _ dc) as [s|] eqn:VP; [|cbn in H; discriminate].
   destruct (d_keys dc) as [|k0 kr] eqn:DK; [cbn in H; discriminate|].
+  destruct (negb (my_type_ok p (first_type dc))) eqn:MT; [cbn in H; discriminate|].
   destruct (new_my Fixed _ my) as [a3|] eqn:NM; [|cbn in H; discriminate].
+  destruct (negb (reply_key_ok p (first_type dc) my)) eqn:RK; [cbn in H; discriminate|].
   destruct (iget (a_invs a3) pt) as [ik|]; [|cbn in H; discriminate].
   cbn [fst snd] in *. inversion H. subst.
   apply new_my_proj in NM. destruct NM as (E1 & E2 & _ & s' & VP' & E4 & KP).
